@@ -581,9 +581,8 @@ class MergerCheck(Check):
                 raise Violation("lumping", f"{what}: entry ({accepted[i][:4]},{accepted[j][:4]}) = {A[i, j]!r} but "
                                             f"sum of original entries = {E[i, j]!r}")
         dd = np.abs(np.diag(A) - np.diag(E)).max() if k else 0.0
-        # the statement fixes the diagonal through the row sums (zero-row-sum input, or after a deletion); for an
-        # arbitrary matrix that was only merged it says nothing about the diagonal, so nothing is demanded there
-        if dd > tol and (deleted_any or zero_rows_in):
+        # "exact lumping ... with DELETIONS re-setting the diagonal": a merge alone is P^T M P, diagonal blocks included
+        if dd > tol:
             i = int(np.argmax(np.abs(np.diag(A) - np.diag(E))))
             orc = "diag-after-delete" if deleted_any else "diag-lump"
             raise Violation(orc, f"{what}: diagonal of group {accepted[i][:4]} = {A[i, i]!r}, expected {E[i, i]!r}")
